@@ -166,7 +166,7 @@ func runC06(c *Ctx) {
 		adv := 0
 		for _, in := range findU(R, func(in ssa.Instruction) bool { return r.isStoreTo(in, r.head) }) {
 			st := in.(*ssa.Store)
-			b, ok := st.Val.(*ssa.BinOp)
+			b, ok := origin(st.Val).(*ssa.BinOp)
 			if !ok || b.Op != token.ADD || !r.isLoad(b.X, r.head) {
 				continue
 			}
@@ -244,7 +244,7 @@ func runC06(c *Ctx) {
 					o.Site(in.Pos(), "%s advanced and wrapped by a helper returning i+1 < len(data) ? i+1 : 0", field)
 					continue
 				}
-				if cl, ok := st.Val.(*ssa.Call); ok && cl.Call.StaticCallee() != nil && inModule(cl.Call.StaticCallee()) {
+				if cl, ok := origin(st.Val).(*ssa.Call); ok && cl.Call.StaticCallee() != nil && inModule(cl.Call.StaticCallee()) {
 					viaField := false
 					for _, a := range cl.Call.Args {
 						if r.isLoad(a, field) {
@@ -257,7 +257,7 @@ func runC06(c *Ctx) {
 						continue
 					}
 				}
-				b, ok := st.Val.(*ssa.BinOp)
+				b, ok := origin(st.Val).(*ssa.BinOp)
 				if !ok || b.Op != token.ADD || !r.isLoad(b.X, field) {
 					continue
 				}
@@ -447,7 +447,7 @@ func (r *bufRoles) headerReadShifts(R *ssa.Function) (shifts []int64, count ssa.
 		if !ok || u.Op != token.MUL {
 			return false
 		}
-		ia, ok := u.X.(*ssa.IndexAddr)
+		ia, ok := origin(u.X).(*ssa.IndexAddr)
 		return ok && r.isLoad(ia.X, r.data) && r.isLoad(ia.Index, r.head)
 	}) {
 		lds = append(lds, in.(*ssa.UnOp))
